@@ -38,19 +38,70 @@ func init() {
 				}
 			}
 			sort.Strings(names)
-			for _, fname := range names {
-				fn, fd, pkg := c.LookupFunc(fname)
-				if fn == nil || pprog == nil || nf == nil {
-					obs = append(obs, anchorMissing("FMT.reject", fname))
-					continue
+			np := c.LookupPkgFunc("formatter.newPrinter")
+			// parse wrappers: functions of the package that parse once with the format-preserving parser,
+			// hand the parse error back as their last result on its non-nil edge, and never print
+			parseWrapper := func(h *types.Func) bool {
+				hd := c.declOf[h]
+				if hd == nil || hd.Body == nil || pprog == nil || nf == nil || (np != nil && c.reaches(h, np)) {
+					return false
 				}
-				u := FuncUnit{fn, fd, pkg}
-				info := pkg.TypesInfo
+				hu := FuncUnit{h, hd, c.pkgOf[hd]}
+				hinfo := hu.Pkg.TypesInfo
+				hfc := c.cfgOf(hu, nil)
+				calls := hfc.findCalls(pprog)
+				sig := h.Type().(*types.Signature)
+				if len(calls) != 1 || len(hfc.findCalls(nf)) == 0 || sig.Results().Len() < 2 || sig.Results().At(sig.Results().Len()-1).Type().String() != "error" {
+					return false
+				}
+				as, _ := hfc.Node(calls[0].Loc).(*ast.AssignStmt)
+				if as == nil || len(as.Lhs) != 2 {
+					return false
+				}
+				errObj := identObj(hinfo, as.Lhs[1])
+				if errObj == nil {
+					return false
+				}
+				for _, e := range hfc.nilEdges(errObj, false) {
+					succ := e.B.Succs[e.K]
+					if len(succ.Nodes) > 0 {
+						if rs, ok := succ.Nodes[0].(*ast.ReturnStmt); ok && len(rs.Results) == sig.Results().Len() && identObj(hinfo, rs.Results[len(rs.Results)-1]) == errObj {
+							return true
+						}
+					}
+				}
+				return false
+			}
+			var rejects func(fn *types.Func, depth int) (string, string, ast.Node)
+			rejects = func(fn *types.Func, depth int) (string, string, ast.Node) {
+				fd := c.declOf[fn]
+				if fd == nil || fd.Body == nil || depth > 3 {
+					return Violated, "does not parse exactly once with rdparser.NewFormatting(...).ParseProgram()", nil
+				}
+				u := FuncUnit{fn, fd, c.pkgOf[fd]}
+				info := u.Pkg.TypesInfo
 				fc := c.cfgOf(u, nil)
 				calls := fc.findCalls(pprog)
 				usesNF := len(fc.findCalls(nf)) > 0
+				// the parse may be made by a parse wrapper of the package
+				viaWrapper := false
 				if len(calls) == 0 {
-					// an entry point that hands the text to another entry point on every path
+					for _, b := range fc.G.Blocks {
+						if !fc.Live(b) {
+							continue
+						}
+						for i, n := range b.Nodes {
+							for _, ce := range callsIn(n, false) {
+								if h := originOf(Callee(info, ce)); h != nil && h.Pkg() == fn.Pkg() && parseWrapper(h) {
+									calls = append(calls, locatedCall{ce, h, Loc{b, i}})
+									viaWrapper, usesNF = true, true
+								}
+							}
+						}
+					}
+				}
+				if len(calls) == 0 {
+					// hands the text to another function of the package that rejects, on every path
 					deleg, nret := true, 0
 					ast.Inspect(fd.Body, func(n ast.Node) bool {
 						if _, ok := n.(*ast.FuncLit); ok {
@@ -61,8 +112,10 @@ func init() {
 							ok2 := false
 							if len(rs.Results) == 1 {
 								if ce, ok := ast.Unparen(rs.Results[0]).(*ast.CallExpr); ok {
-									if h := originOf(Callee(info, ce)); h != nil && entries[FuncName(h)] && h != fn {
-										ok2 = true
+									if h := originOf(Callee(info, ce)); h != nil && h != fn && h.Pkg() == fn.Pkg() {
+										if v, _, _ := rejects(h, depth+1); v == Proved {
+											ok2 = true
+										}
 									}
 								}
 							}
@@ -73,18 +126,16 @@ func init() {
 						return true
 					})
 					if deleg && nret > 0 {
-						obs = append(obs, mkOb(c, "FMT.reject", u, "rejected input produces no output", fd, Proved, "every return delegates to another text entry point of the formatter", true))
-						continue
+						return Proved, "every return delegates to a function of the formatter that returns (nil, err) for rejected text before any printing", fd
 					}
 				}
 				if len(calls) != 1 || !usesNF {
-					obs = append(obs, mkOb(c, "FMT.reject", u, "parse", fd, Violated, "does not parse exactly once with rdparser.NewFormatting(...).ParseProgram()", true))
-					continue
+					return Violated, "does not parse exactly once with rdparser.NewFormatting(...).ParseProgram()", fd
 				}
 				as, _ := fc.Node(calls[0].Loc).(*ast.AssignStmt)
 				var errObj types.Object
-				if as != nil && len(as.Lhs) == 2 {
-					errObj = identObj(info, as.Lhs[1])
+				if as != nil && len(as.Lhs) >= 2 && (viaWrapper || len(as.Lhs) == 2) {
+					errObj = identObj(info, as.Lhs[len(as.Lhs)-1])
 				}
 				okRet := false
 				if errObj != nil {
@@ -97,9 +148,7 @@ func init() {
 						}
 					}
 				}
-				// nothing is printed before the error test: no call to newPrinter dominates... simply: newPrinter is
-				// reachable only via the err == nil edge
-				np := c.LookupPkgFunc("formatter.newPrinter")
+				// nothing is printed before the error test: newPrinter is reachable only via the err == nil edge
 				guarded := true
 				if np != nil && errObj != nil {
 					nilEdges := fc.nilEdges(errObj, true)
@@ -121,10 +170,26 @@ func init() {
 					}
 				}
 				if okRet && guarded {
-					obs = append(obs, mkOb(c, "FMT.reject", u, "rejected input produces no output", calls[0].Call, Proved, "`return nil, err` on the error edge; the printer is created only on the err == nil edge", true))
-				} else {
-					obs = append(obs, mkOb(c, "FMT.reject", u, "rejected input produces no output", calls[0].Call, Violated, "text the reader rejects can still produce formatter output", true))
+					return Proved, "`return nil, err` on the error edge; the printer is created only on the err == nil edge", calls[0].Call
 				}
+				return Violated, "text the reader rejects can still produce formatter output", calls[0].Call
+			}
+			for _, fname := range names {
+				fn, fd, pkg := c.LookupFunc(fname)
+				if fn == nil || pprog == nil || nf == nil {
+					obs = append(obs, anchorMissing("FMT.reject", fname))
+					continue
+				}
+				u := FuncUnit{fn, fd, pkg}
+				v, why, at := rejects(fn, 0)
+				if at == nil {
+					at = fd
+				}
+				construct := "rejected input produces no output"
+				if v != Proved && strings.HasPrefix(why, "does not parse") {
+					construct = "parse"
+				}
+				obs = append(obs, mkOb(c, "FMT.reject", u, construct, at, v, why, true))
 			}
 			return obs
 		}})
@@ -179,11 +244,21 @@ func init() {
 			var obs []Obligation
 			strip := c.LookupField("formatter.Config.StripComments")
 			for _, u := range c.Funcs(func(p string) bool { return rel(p) == "formatter" }) {
-				name := u.Obj.Name()
-				if !(strings.Contains(name, "Comment") && strings.HasPrefix(name, "write")) {
+				// a comment writer is a function that writes the text of a token: it hands
+				// `<token>.Text` to a call (whatever the function is called)
+				info := u.Pkg.TypesInfo
+				textFld := c.LookupField("parser/token.Token.Text")
+				writesText := false
+				for _, ce := range callsIn(u.Decl.Body, false) {
+					for _, a := range ce.Args {
+						if textFld != nil && FieldOfSelector(info, a) == textFld {
+							writesText = true
+						}
+					}
+				}
+				if !writesText {
 					continue
 				}
-				info := u.Pkg.TypesInfo
 				ord := &ordinal{}
 				// top-level `if cond { return }` statements
 				for _, st := range u.Decl.Body.List {
